@@ -133,7 +133,7 @@ def main(tier, seed):
     for p in progs:
         for e in p["expDiag"]:
             per_class[e["class"]] = per_class.get(e["class"], 0) + 1
-    ck.note("programs", {"valid": sum(1 for p in progs if not p["expDiag"]), "with_defect": sum(1 for p in progs if p["expDiag"])})
+    ck.note("program_counts", {"valid": sum(1 for p in progs if not p["expDiag"]), "with_defect": sum(1 for p in progs if p["expDiag"])})
     ck.note("defect_programs_per_class", per_class)
     missing = [c for c in CLASSES if c not in per_class]
     ck.note("classes_not_exercised_this_run", missing)
